@@ -378,6 +378,10 @@ class RealWorld(object):
     def op_jit(self, v):
         JITTER.value = float(parse_num(v))
 
+    def op_advance(self, ticks):
+        """let virtual time pass without running anything (used by the C19 solo replays)"""
+        CLOCK.rightNow = max(CLOCK.rightNow, int(ticks) / TICK)
+
     def op_setid(self, v):
         self.factory.id = int(v)
 
